@@ -431,6 +431,24 @@ func runC06(c *Ctx) {
 	if !found {
 		c.bad("min-serial-origin", relName(rf)+"#minSerial", rf.Pos(), "RegisterCallback does not build a userCallbackHandle")
 	}
+	// ... and the threshold is never touched again: the only writer of userCallbackHandle.minSerial is the
+	// construction of the handle in RegisterCallback (the callback goroutine lowering it re-opens the window for a
+	// version the registration already knew about)
+	if fM := w.field("", "userCallbackHandle", "minSerial"); fM != nil {
+		okM, nM := true, 0
+		for _, st := range w.storesToField(fM) {
+			nM++
+			fa, _ := st.Addr.(*ssa.FieldAddr)
+			_, fresh := fa.X.(*ssa.Alloc)
+			if origin(st.Parent()) != origin(rf) || !fresh {
+				okM = false
+				c.bad("min-serial-origin", relName(st.Parent())+"#minSerial-write", st.Pos(), "userCallbackHandle.minSerial is assigned outside the construction of the handle in RegisterCallback: a registered callback's threshold can move, and a version it registered with (or already received) be delivered to it")
+			}
+		}
+		if okM {
+			c.check(nM >= 1, "min-serial-origin", "minSerial-writers", rf.Pos(), "userCallbackHandle.minSerial is only written where RegisterCallback constructs the handle", "no writer of userCallbackHandle.minSerial found")
+		}
+	}
 	fS := w.field("", "CfgSerial", "s")
 	okS, nS := true, 0
 	for _, st := range w.storesToField(fS) {
